@@ -16,8 +16,11 @@ partial def parseTree (j : Json) : Except String Node := do
     | _ => throw s!"bad kind {k}"
   let nm := fldD j "name" Json.null
   let name ← if isNull nm then pure [] else chars nm
+  -- "key": the dict key the element is stored under, when it differs from its name
+  let kj := fldD j "key" Json.null
+  let key ← if isNull kj then pure name else chars kj
   let kids ← (← afld j "kids").mapM parseTree
-  return .mk kind name kids
+  return .mk kind key name kids
 
 /-- (position, id) of every node, preorder -/
 partial def idTable (j : Json) (pos : Pos) : Except String (List (Pos × Nat)) := do
